@@ -113,12 +113,34 @@ def r4_escape(ck, cx, kind, cls, f, fps):
     return n
 
 
+def r5_chunk_independent_control(ck, cx, kind, cls, f, fps):
+    """after the chunk has been appended to the buffer, no decision may look at the chunk itself"""
+    chunk = f.params[1]
+    n = 0
+    seen = set()
+    for fp in fps:
+        for ev in fp.path.ev:
+            if ev.kind != 'cond':
+                continue
+            names = {x.id for x in ast.walk(ev._sub) if isinstance(x, ast.Name)}
+            root_chunk = chunk in names and (ev.frame.fid == 0 or chunk not in (ev.frame.func.params if ev.frame.func else []))
+            n += 1
+            if root_chunk and U(ev._sub) not in seen:
+                seen.add(U(ev._sub))
+                ck.ob('R5', f.qn, 'no branch depends on the current chunk (only on the accumulated buffer)', False,
+                      detail='decision-on-chunk %s' % U(ev._sub)[:60], loc=cx.floc(f, ev.node),
+                      message='%s framer branches on `%s`, a property of the chunk just received: the same bytes cut differently take a different path' % (kind, U(ev._sub)[:80]))
+    ck.ob('R5', f.qn, 'branch conditions of the receive path were examined', n > 0, detail='no-conditions', loc=cx.floc(f))
+    return n
+
+
 def run(ck, tier):
     cx = Ctx()
     ck.rule('R1', 'every delivery site lies inside a loop of processIncomingPacket that continues after a delivery')
     ck.rule('R2', 'on every path that takes a data-absence outcome (length too small / delimiter not found) nothing is discarded, raised or delivered afterwards')
     ck.rule('R3', 'header truthiness after __init__ equals that after resetFrame/advanceFrame when code branches on it')
     ck.rule('R4', 'IndexError/KeyError/struct.error from sizing a partial frame cannot escape processIncomingPacket')
+    ck.rule('R5', 'after the chunk is appended to the buffer no branch condition of the receive path mentions the chunk: decisions depend on the accumulated bytes only')
     npaths = nabs = 0
     for kind in KINDS:
         cls, f, fps = framer_paths(cx, kind)
@@ -129,6 +151,7 @@ def run(ck, tier):
         nabs += r2_incomplete(ck, cx, kind, cls, f, fps)
         r3_header(ck, cx, kind, cls)
         r4_escape(ck, cx, kind, cls, f, fps)
+        r5_chunk_independent_control(ck, cx, kind, cls, f, fps)
         ck.sample({'framer': kind, 'paths': len(fps), 'absence-paths': sum(1 for fp in fps if fp.absences),
                    'delivery-paths': sum(1 for fp in fps if fp.deliveries)})
     ck.floor('R2', nabs, 8, 'data-absence paths over four framers')
